@@ -1061,6 +1061,9 @@ pub struct Overrides {
     pub content_type_override: Option<Vec<u8>>,
     /// additional raw header lines appended last (name, value)
     pub extra_raw_headers: Vec<(Vec<u8>, Vec<u8>)>,
+    /// no Host header at all: SignedHeaders names `:authority` instead (what an HTTP/2 front end hands over: the authority
+    /// travels in the request target)
+    pub omit_host: bool,
     /// further values for headers the renderer manages itself (host, x-amz-date, x-amz-security-token …): appended to that
     /// header's value list *before* signing, so the request is still validly signed (values joined by ',' in arrival order)
     pub more_values: Vec<(String, Vec<u8>)>,
@@ -1081,6 +1084,13 @@ pub fn render(l: &Logical, cfg: &Cfg, sp: &mut Speller, ov: &Overrides) -> (Wire
         None => String::new(),
     };
     let mut signed = ov.signed.clone().unwrap_or_else(|| l.signed.clone());
+    if ov.omit_host {
+        for n in signed.iter_mut() {
+            if n == "host" {
+                *n = ":authority".to_string();
+            }
+        }
+    }
     signed.sort();
     let alg = ov.algorithm.clone().unwrap_or_else(|| "AWS4-HMAC-SHA256".to_string());
 
@@ -1096,7 +1106,11 @@ pub fn render(l: &Logical, cfg: &Cfg, sp: &mut Speller, ov: &Overrides) -> (Wire
     let folded = cfg.fold && l.form_pairs.is_some() && is_form(&l.content_type);
 
     // logical headers: (lower name, canonical values)
-    let mut hdrs: Vec<(String, Vec<Vec<u8>>)> = vec![("host".into(), vec![l.host.clone()])];
+    let mut hdrs: Vec<(String, Vec<Vec<u8>>)> = if ov.omit_host {
+        Vec::new()
+    } else {
+        vec![("host".into(), vec![l.host.clone()])]
+    };
     if l.carrier == Carrier::Header {
         match l.date_mode {
             _ if ov.omit_date => {}
@@ -1123,6 +1137,16 @@ pub fn render(l: &Logical, cfg: &Cfg, sp: &mut Speller, ov: &Overrides) -> (Wire
         }
     }
 
+    // The order in which SignedHeaders enumerates the names is the client's business: the canonical request lists names in
+    // sorted order whatever that order was.
+    let listed: Vec<String> = if ov.signed.is_none() && signed.len() > 1 && sp.vary(1, 5) {
+        let mut v = signed.clone();
+        sp.r.shuffle(&mut v);
+        v
+    } else {
+        signed.clone()
+    };
+
     // logical query pairs
     let mut pairs: Pairs = l.url_pairs.clone();
     if l.carrier == Carrier::Query {
@@ -1136,7 +1160,7 @@ pub fn render(l: &Logical, cfg: &Cfg, sp: &mut Speller, ov: &Overrides) -> (Wire
             pairs.push((b"X-Amz-Date".to_vec(), ts_text.clone().into_bytes()));
         }
         if !ov.omit_signed_headers {
-            pairs.push((b"X-Amz-SignedHeaders".to_vec(), signed.join(";").into_bytes()));
+            pairs.push((b"X-Amz-SignedHeaders".to_vec(), listed.join(";").into_bytes()));
         }
         if let Some(tok) = &l.token {
             pairs.push((b"X-Amz-Security-Token".to_vec(), tok.clone().into_bytes()));
@@ -1334,7 +1358,7 @@ pub fn render(l: &Logical, cfg: &Cfg, sp: &mut Speller, ov: &Overrides) -> (Wire
             params.push(format!("Credential={}", credential));
         }
         if !ov.omit_signed_headers || l.carrier == Carrier::Query {
-            params.push(format!("SignedHeaders={}", signed.join(";")));
+            params.push(format!("SignedHeaders={}", listed.join(";")));
         }
         if !ov.omit_signature || l.carrier == Carrier::Query {
             params.push(format!("Signature={}", presented));
